@@ -1146,7 +1146,22 @@ func c15ValText(c *Ctx, r *Report) {
 					switch t := ref.(type) {
 					case *ssa.BinOp:
 						if t.Op == token.ADD {
-							bad = t.Pos()
+							// layout around the value (" = " + text, text + ")") is harmless; anything else is part of the value
+							other := t.X
+							if other == v {
+								other = t.Y
+							}
+							layout := false
+							if k, ok := other.(*ssa.Const); ok {
+								if str, ok := constStr(k); ok && strings.Trim(str, " =,:()[]{}\n\t") == "" {
+									layout = true
+								}
+							}
+							if layout {
+								walk(t, d+1)
+							} else {
+								bad = t.Pos()
+							}
 						}
 					case *ssa.Phi:
 						walk(t, d+1)
